@@ -6,6 +6,7 @@ import TaskctlVerif.Model.Cli
 import TaskctlVerif.Model.Cancel
 import TaskctlVerif.Model.CtxHooks
 import TaskctlVerif.Model.Layers
+import TaskctlVerif.Model.Vars
 /-!
 Line-protocol oracle: one case per line on stdin (`<family> <payload>`), one observation per line on
 stdout.  Compiled from exactly the definitions the theorems are about (core Lean only).
@@ -222,8 +223,30 @@ def layersCase (fields : List String) : String :=
     | none => "none"
   "|".intercalate ((List.range n).map (fun i => s!"s{i}:" ++ showCfg (σ.seen i)) ++ ["direct:" ++ showCfg σ.direct])
 
-def handle (line : String) : String :=
-  let line := line.trimAscii.toString
+/-- `vars config=a-config set=f-set task=… stage=…` -/
+def varsCase (fields : List String) : String :=
+  let lvl (n : String) : Layers.Env String :=
+    match fields.find? (fun f => f.startsWith (n ++ "=")) with
+    | some f => [("V", (f.drop (n.length + 1)).toString)]
+    | none => []
+  let L : Vars.VarLevels String :=
+    { defaults := [("TempDir", "/tmp")], globalF := [], project := lvl "config", root := "/root",
+      set := lvl "set", args := "", argsList := "", task := lvl "task", stage := lvl "stage" }
+  match Layers.get (Vars.taskVars L) "V" with
+  | some v => s!"V={v}"
+  | none => "V=<undefined:failed>"
+
+/-- `args w1␟w2␟--␟w3` (unit separator between words) -/
+def argsCase (line : String) : String :=
+  let words := ((line.drop 5).toString).splitOn "\x1f"
+  let q (ws : List String) : String := "".intercalate (ws.map fun w => "<" ++ w ++ ">")
+  let ta := Cli.taskArgs words
+  let args := " ".intercalate ta
+  s!"ARGS=[{args}] LIST=[{q ta}] ENV=[{args}] targets={",".intercalate (Cli.targetsOf words)}"
+
+def handle (line0 : String) : String :=
+  if line0.startsWith "args " then argsCase ((line0.dropEndWhile (· == '\n')).toString) else
+  let line := line0.trimAscii.toString
   match line.splitOn " " with
   | "graph" :: rest => graphCase (" ".intercalate rest)
   | "sched" :: rest => schedCase rest
@@ -235,6 +258,7 @@ def handle (line : String) : String :=
   | "env" :: rest => envCase rest
   | "dir" :: rest => dirCase rest
   | "layers" :: rest => layersCase rest
+  | "vars" :: rest => varsCase rest
   | _ => "bad-op"
 
 partial def loop (h : IO.FS.Stream) (out : IO.FS.Stream) : IO Unit := do
